@@ -368,6 +368,83 @@ fn purity_same_rc(case: &DocCase, expect_json: &str) -> Option<String> {
     }
 }
 
+const STRESS_DOCS: usize = 55987; // sum of 6^i for i in 0..=6
+
+/// `list` and `clean` of three probe documents on a fresh thread, then a fixed history of 55 987
+/// other documents (every tag sequence of up to 6 atoms over {text, open a, close a, open ab,
+/// close ab, close z}: crossing, stray and same-name-nested tags) through `clean` and `list` on
+/// the same thread, then the probes again: a pure function gives the same results.
+pub fn purity_under_load() -> Option<(String, String)> {
+    let cfg = Cfg::standard();
+    let probes = [
+        "a();\n<tl to=\"2000-01-01 00:00:00\">\n  <tl to=\"2999-01-01 00:00:00\">\n  b();\n  </tl>\n</tl>\nc();\n",
+        "<tl to=\"2999-01-01 00:00:00\">\n<rm name=\"a\">\nx();\n</rm>\n<tl to=\"2000-01-01 00:00:00\" unwrap-block>\nif (y) {\n  z();\n}\n</tl>\n</tl>\n",
+        "p(); <rm name=\"a\">q</rm> r(); <tl to=\"2000-01-01 00:00:00\">s</tl>\n",
+    ];
+    let observe = |cfg: &Cfg| -> Vec<String> {
+        let mut v = vec![];
+        for p in probes {
+            v.push(format!("{:?}", run_clean(p, "<", ">", cfg)));
+            v.push(format!("{:?}", run_list(p, "<", ">", cfg, ListMode::List, true)));
+            v.push(format!("{:?}", run_list(p, "<", ">", cfg, ListMode::ListAll, true)));
+        }
+        v
+    };
+    let res = std::thread::scope(|sc| {
+        sc.spawn(|| {
+            let before = observe(&cfg);
+            let atoms = ["t", "<a>", "</a>", "<ab>", "</ab>", "</z>"];
+            let mut idx: Vec<usize> = vec![];
+            let mut n = 0usize;
+            // all sequences of length 0..=6 in lexicographic order
+            loop {
+                let doc: String = idx.iter().map(|&i| atoms[i]).collect();
+                let _ = run_clean(&doc, "<", ">", &cfg);
+                let _ = run_list(&doc, "<", ">", &cfg, ListMode::ListAll, true);
+                n += 1;
+                if idx.len() < 6 {
+                    idx.push(0);
+                    continue;
+                }
+                loop {
+                    match idx.pop() {
+                        None => break,
+                        Some(i) if i + 1 < atoms.len() => {
+                            idx.push(i + 1);
+                            break;
+                        }
+                        Some(_) => {}
+                    }
+                }
+                if idx.is_empty() {
+                    break;
+                }
+            }
+            assert_eq!(n, STRESS_DOCS);
+            let after = observe(&cfg);
+            (before, after)
+        })
+        .join()
+    });
+    let Ok((before, after)) = res else {
+        return Some(("panic-under-load".into(), "the stress history panicked".into()));
+    };
+    if before != after {
+        let k = before.iter().zip(&after).position(|(a, b)| a != b).unwrap_or(0);
+        return Some((
+            "result-depends-on-call-history".into(),
+            format!(
+                "probe #{} ({}): before the history {:?}, after it {:?}",
+                k / 3,
+                ["clean", "list", "list_all"][k % 3],
+                before[k],
+                after[k]
+            ),
+        ));
+    }
+    None
+}
+
 /// CRLF sources: '\r' is an ordinary character at the end of a line; only the item count,
 /// line numbers and status are compared (the pretty form drops the '\r', which the statement
 /// does not forbid).
@@ -869,6 +946,23 @@ pub fn run(r: &Report, prop: &str) {
     if prop == "C16" && !r.stopped() {
         column_family(r, d, &names, &cfg);
     }
+    if prop == "C15" && !r.stopped() {
+        // purity under load: the probes' results must not depend on what was processed before
+        let mut l = r.local();
+        l.eval();
+        l.transition(STRESS_DOCS as u64);
+        l.trace_validated(1);
+        l.class("purity-under-load");
+        if let Some((class, detail)) = purity_under_load() {
+            l.violation(Violation {
+                prop: "C15".into(),
+                class,
+                case: json!({"engine": "listing-load"}),
+                detail,
+            });
+        }
+        r.extra("purity_under_load_stress_documents", json!(STRESS_DOCS));
+    }
 }
 
 /// C16: regions starting / ending at every column, tab / space / mixed prefixes, line-number
@@ -915,6 +1009,17 @@ fn column_family(r: &Report, d: &Delims, names: &Names, cfg: &Cfg) {
 }
 
 pub fn replay(prop: &str, case: &Value) -> Vec<Violation> {
+    if case["engine"] == "listing-load" {
+        return purity_under_load()
+            .map(|(class, detail)| Violation {
+                prop: prop.into(),
+                class,
+                case: case.clone(),
+                detail,
+            })
+            .into_iter()
+            .collect();
+    }
     let Some(c) = DocCase::from_json(case) else {
         return vec![];
     };
